@@ -18,7 +18,7 @@ RULE = ('seeded worlds with bad outcomes of every kind at random positions (or n
         'of the child, truncated report. Verdict of run_internal vs. ground truth from trace + '
         'fired faults, in the spec\'s mode and the opposite mode. distinct = digest of hook-site '
         'sequences + faults + completion order; non-trivial = a fault fired or children ran')
-BIAS = dict(n_test_faults=[0, 0, 1, 1, 2], n_layer_faults=[0, 0, 0, 1, 2], p_import_fault=0.08,
+BIAS = dict(p_weird_ids=0.15, n_test_faults=[0, 0, 1, 1, 2], n_layer_faults=[0, 0, 0, 1, 2], p_import_fault=0.08,
             p_buffer=0.2, p_j=0.4, p_repeat=0.15, p_shuffle=0.1, v=[0, 1, 2], p_occ=0.2,
             n_writes=[0, 0, 1, 3],
             write_streams=['stdout', 'stderr', 'print', 'realstderr'],
@@ -67,6 +67,18 @@ def gen(seed):
         if cands:
             spec['plan'].append({'site': 'layer.tearDown', 'ident': rng.choice(cands),
                                  'a': 'raise', 'exc': 'NotImplementedError', 'where': 'parent'})
+    if rng.random() < 0.12:
+        # bytes that are not valid UTF-8 on a child's real stderr
+        disc = [d for d in m.discover() if C.test_phases(d)]
+        if disc:
+            d = rng.choice(disc)
+            junk = rng.choice([b'caf\xe9 na\xefve\n', b'\xff\xfe\x00binary\x80\x81\n',
+                               b'\xc3(\n', b'\xe2\x82 truncated', b'\x80' * 300 + b'\n'])
+            spec['plan'].append(C.fault_entry(d, rng.choice(C.test_phases(d)),
+                                              {'a': 'write', 'stream': 'realstderr.bytes',
+                                               'text': '', 'hex': junk.hex()}))
+            if not spec['opt'].get('j'):
+                spec['opt']['j'] = rng.randint(2, 3)
     if rng.random() < 0.06:
         # a test module that imports in the parent but not in a child (environment dependent)
         mod = rng.choice(world['modules'])
